@@ -156,6 +156,7 @@ fn protected_symlinks_sysctl() -> Result<u32, Error> {
 ///
 /// Because we emulate symlink following in userspace, the kernel cannot apply
 /// `fs.protected_symlinks` restrictions so we need to emulate them ourselves.
+/// The caller must only call this for trailing symlinks (see `do_resolve`).
 fn may_follow_link<DirFd: AsFd, Fd: AsFd>(dir: DirFd, link: Fd) -> Result<(), Error> {
     // Skip doing checks if the fs.protected_symlinks sysctl is disabled.
     let fsuid = syscalls::geteuid();
@@ -384,13 +385,20 @@ fn do_resolve<Fd: AsFd, P: AsRef<Path>>(
                         });
                     }
 
-                    // Verify that we can follow the link.
-                    // MSRV(1.69): Remove &*.
-                    may_follow_link(&*current, &next).with_wrap(|| {
-                        format!(
-                            "component {part:?} is an unsafe symlink that is blocked by fs.protected_symlinks"
-                        )
-                    })?;
+                    // Verify that we can follow the link. Like the kernel
+                    // (pick_link() only calls may_follow_link() for
+                    // WALK_TRAILING), fs.protected_symlinks only restricts a
+                    // *trailing* symlink -- the last component of what is
+                    // left to walk, possibly followed by trailing slashes.
+                    // Symlinks in the middle of a path are not restricted.
+                    if remaining_components.iter().all(|part| part.is_empty()) {
+                        // MSRV(1.69): Remove &*.
+                        may_follow_link(&*current, &next).with_wrap(|| {
+                            format!(
+                                "component {part:?} is an unsafe symlink that is blocked by fs.protected_symlinks"
+                            )
+                        })?;
+                    }
 
                     // We need a limit on the number of symlinks we traverse to
                     // avoid hitting filesystem loops and DoSing.
